@@ -21,12 +21,14 @@ Durs == {NONEV, 0, 1, 2, INFV}
 SomeTables == {<<<<2, 1>>, <<1, 2>>>>, <<<<2, 0 - 1>>, <<0 - 1, 1>>>>, <<<<2, 2>>, <<0, 1>>>>}
 Init == /\ \E tr \in (IF Tables = "all" THEN [1..M -> [1..N -> T]] ELSE SomeTables), te \in [1..N -> {0, 1, 2, 101, 102}],
              cd \in [1..N -> Durs], idr \in {<<ABSENTV, ABSENTV>>, <<1, 2>>},
-             cf \in {<<<<0, 0>>, <<0, 0>>>>, <<<<0, 1>>, <<1, 0>>>>}, xb \in {<<0, 0>>, <<0, 1>>} :
+             cf \in {<<<<0, 0>>, <<0, 0>>>>, <<<<0, 1>>, <<1, 0>>>>}, xb \in {<<0, 0>>, <<0, 1>>}, ec \in {<<0, 0>>, <<2, 0>>, <<0, 101>>} :
              /\ (xb # <<0, 0>> => (idr = <<ABSENTV, ABSENTV>> /\ cf = <<<<0, 0>>, <<0, 0>>>>))
+             /\ (ec # <<0, 0>> => (idr = <<ABSENTV, ABSENTV>> /\ cf = <<<<0, 0>>, <<0, 0>>>> /\ xb = <<0, 0>>
+                                   /\ F!Known([n |-> N, m |-> M, trans |-> tr, any |-> <<0 - 1, 0 - 1>>], 2)))
              /\ \A s \in 1..N : te[s] = 0 => (cd[s] = NONEV /\ idr[s] = ABSENTV)
              /\ \A s \in 1..N : te[s] \in 1..M => F!Known([n |-> N, m |-> M, trans |-> tr, any |-> <<0 - 1, 0 - 1>>], te[s])
              /\ cfg = [n |-> N, m |-> M, trans |-> tr, any |-> <<0 - 1, 0 - 1>>, cf |-> cf,
-                       tev |-> te, cdur |-> cd, idur |-> idr, init |-> 1, xbad |-> xb]
+                       tev |-> te, cdur |-> cd, idur |-> idr, init |-> 1, xbad |-> xb, echain |-> ec]
         /\ w = F!World(0, {}, 0, 1, "none") /\ tm = F!NoTimer /\ now = 0
         /\ inited = FALSE /\ fired = {} /\ stale = FALSE /\ stopped = FALSE /\ dead = FALSE /\ hist = <<>>
 
@@ -38,14 +40,14 @@ Apply(wn, r) == /\ w' = Norm(wn) /\ tm' = r.tm
 
 (* initialisation: Goto(initdef) on the uninitialised FSM *)
 Start == /\ ~inited /\ ~dead /\ ~stopped
-         /\ Apply(F!IEnter(cfg, w, cfg.init, ABSENTV, now, FALSE, 0),
-                  F!Enter(cfg, cfg.init, ABSENTV, now, FALSE, 0))
+         /\ Apply(F!IEnter(cfg, w, cfg.init, ABSENTV, now, FALSE, 0, FALSE),
+                  F!Enter(cfg, cfg.init, ABSENTV, now, FALSE, 0, FALSE))
          /\ UNCHANGED <<fired, stale, hist>>
 
 Ext == /\ inited /\ ~dead /\ ~stopped
-       /\ \E ev \in (1..M) \cup {101, 102}, d \in {ABSENTV, 0, 2, INFV} :
-             /\ Apply(F!IHandle(cfg, w, ev, d, now, TRUE), F!Handle(cfg, w.st, tm, ev, d, now, TRUE))
-             /\ hist' = Append(hist, [op |-> "ext", t |-> now, e |-> ev, d |-> d])
+       /\ \E ev \in (1..M) \cup {101, 102}, d \in {ABSENTV, 0, 2, INFV}, c \in (IF cfg.echain = <<0, 0>> THEN {FALSE} ELSE BOOLEAN) :
+             /\ Apply(F!IHandleC(cfg, w, ev, d, now, TRUE, c), F!HandleC(cfg, w.st, tm, ev, d, now, TRUE, c))
+             /\ hist' = Append(hist, [op |-> "ext", t |-> now, e |-> ev, d |-> d, c |-> c])
        /\ UNCHANGED <<fired, stale>>
 
 (* the loop runs a due handle, whichever it is *)
@@ -68,7 +70,7 @@ Tick == /\ now < MaxNow /\ \A h \in w.hs : h.due > now
 Stop == /\ ~stopped /\ now >= MinStop
         /\ stopped' = TRUE /\ w' = F!StopTimer(w) /\ tm' = F!NoTimer
         /\ UNCHANGED <<cfg, now, inited, fired, stale, dead>>
-        /\ hist' = Append(hist, [op |-> "stop", t |-> now, e |-> 0, d |-> 0])
+        /\ hist' = Append(hist, [op |-> "stop", t |-> now, e |-> 0, d |-> 0, c |-> FALSE])
 
 Next == Start \/ Ext \/ Fire \/ Tick \/ Stop
 Spec == Init /\ [][Next]_vars
